@@ -47,6 +47,26 @@ func init() {
 						}
 					}
 				}
+			case c < T && r.Chance(1, 3):
+				// flip a window that holds no value yet and is exactly as long as what is missing
+				need := T - c
+				run := 0
+				from := r.Intn(65536)
+				for n := 0; n < 65536; n++ {
+					i := (from + n) % 65536
+					if i == 0 {
+						run = 0
+					}
+					if has(i) {
+						run = 0
+						continue
+					}
+					run++
+					if run == need {
+						w.probe("thresh-flip-to-" + itoa(T))
+						return Step{Op: "flip", S: []int{b}, A: []uint64{base + uint64(i-need+1), base + uint64(i) + 1}}, true
+					}
+				}
 			case c < T:
 				// add a range whose absent members number exactly T-c
 				start := r.Intn(65536)
@@ -296,6 +316,14 @@ func init() {
 			switch r.Intn(4) {
 			case 0:
 				steps = append(steps, Step{Op: "binop", S: []int{d, z, b}, A: []uint64{op}})
+				if r.Bool() && d != z && d != b {
+					// the derived bitmap meets its zero-copy source again, in place, both ways round
+					if r.Bool() {
+						steps = append(steps, Step{Op: "ibinop", S: []int{d, z}, A: []uint64{uint64(r.Intn(4))}})
+					} else {
+						steps = append(steps, Step{Op: "ibinop", S: []int{z, d}, A: []uint64{uint64(r.Intn(4))}})
+					}
+				}
 			case 1:
 				steps = append(steps, Step{Op: "binop", S: []int{d, b, z}, A: []uint64{op}})
 			case 2:
@@ -391,6 +419,126 @@ func init() {
 			steps = append(steps, Step{Op: "agg", S: append([]int{d}, list...), A: []uint64{uint64(r.Intn(7)), uint64(workerPool[r.Intn(len(workerPool))])}})
 			w.pending = append(w.pending, steps[1:]...)
 			w.probe("tinysubset-scenario")
+			return steps[0], true
+		},
+		exec: func(w *World, st *Step) {}})
+}
+
+func init() {
+	// gap: operate on exactly the hole between two stretches of consecutive values
+	// (fill it, flip it, or remove one of the stretches that bound it), also one value off
+	reg(&opDef{name: "gap", tag: "C02",
+		gen: func(w *World, r *Rng) (Step, bool) {
+			b := w.nonEmptySlot(r)
+			o := w.B[b]
+			ks := o.M.Keys()
+			if len(ks) == 0 {
+				return Step{}, false
+			}
+			k := ks[r.Intn(len(ks))]
+			words := o.M.ChunkWords(k)
+			has := func(i int) bool { return i >= 0 && i < 65536 && words[i>>6]&(1<<(uint(i)&63)) != 0 }
+			base := uint64(k) << 16
+			start := r.Intn(65536)
+			// find "present, absent..., present"
+			for n := 0; n < 65536; n++ {
+				i := (start + n) % 65536
+				if !has(i) || has(i+1) || i+1 >= 65536 {
+					continue
+				}
+				j := i + 1
+				for j < 65536 && !has(j) {
+					j++
+				}
+				if j >= 65536 {
+					continue
+				}
+				// hole is [i+1, j)
+				s, e := uint64(i+1), uint64(j)
+				switch r.Intn(6) {
+				case 0:
+					s--
+				case 1:
+					e++
+				case 2:
+					if e-s > 1 {
+						e--
+					}
+				}
+				op := []string{"addrange", "flip", "flip", "addrange", "flipstatic"}[r.Intn(5)]
+				w.probe("gap-scenario")
+				if op == "flipstatic" {
+					return Step{Op: op, S: []int{w.slot(r), b}, A: []uint64{base + s, base + e}}, true
+				}
+				return Step{Op: op, S: []int{b}, A: []uint64{base + s, base + e}}, true
+			}
+			return Step{}, false
+		},
+		exec: func(w *World, st *Step) {}})
+}
+
+func init() {
+	// reuse: decode into a receiver whose internal tables have a history (cloned at one size,
+	// grown by a few chunks, possibly shrunk again), from a source with a mid-sized chunk count
+	reg(&opDef{name: "reuse", tag: "C05",
+		gen: func(w *World, r *Rng) (Step, bool) {
+			if w.regionsLive() >= maxRegions-1 {
+				return Step{}, false
+			}
+			src, tmp := w.slot(r), 0
+			tmp = (src + 1 + r.Intn(len(w.B)-1)) % len(w.B)
+			recv := (tmp + 1 + r.Intn(len(w.B)-1)) % len(w.B)
+			if recv == src {
+				recv = (recv + 1) % len(w.B)
+				if recv == tmp {
+					recv = (recv + 1) % len(w.B)
+				}
+			}
+			k0 := uint16(r.Intn(60000))
+			steps := []Step{
+				{Op: "clear", S: []int{src}},
+				{Op: "addmany", S: []int{src}, A: []uint64{uint64(k0), 7, uint64(2 + r.Intn(60)), r.U64()}},
+				{Op: "clear", S: []int{tmp}},
+				{Op: "addmany", S: []int{tmp}, A: []uint64{uint64(k0 + uint16(r.Intn(10))), 7, uint64(1 + r.Intn(40)), r.U64()}},
+				{Op: "clone", S: []int{recv, tmp}},
+			}
+			for i := 0; i < r.Intn(4); i++ {
+				steps = append(steps, Step{Op: "addmany", S: []int{recv}, A: []uint64{uint64(k0 + 100 + uint16(r.Intn(3000))), 7, uint64(1 + r.Intn(12)), r.U64()}})
+			}
+			if r.Chance(1, 3) {
+				steps = append(steps, Step{Op: "removerange", S: []int{recv}, A: []uint64{uint64(k0+50) << 16, uint64(k0+50+uint16(r.Intn(2000))) << 16}})
+			}
+			if r.Chance(1, 3) {
+				steps = append(steps, w.kindSteps(r, src, k0+uint16(r.Intn(5)))...)
+			}
+			steps = append(steps, Step{Op: "rt", S: []int{recv, src}, A: []uint64{uint64(r.Intn(4)), uint64(r.Intn(5)), r.U64(), 1}})
+			w.pending = append(w.pending, steps[1:]...)
+			w.probe("reuse-scenario")
+			return steps[0], true
+		},
+		exec: func(w *World, st *Step) {}})
+	reg(&opDef{name: "reuse64", tag: "C18",
+		gen: func(w *World, r *Rng) (Step, bool) {
+			if w.regionsLive() >= maxRegions-1 {
+				return Step{}, false
+			}
+			src := w.slot64(r)
+			tmp := (src + 1) % numB64
+			recv := (src + 2) % numB64
+			h0 := uint64(r.Intn(1 << 30))
+			steps := []Step{
+				{Op: "maint64", S: []int{src, tmp}, A: []uint64{6}},
+				{Op: "maint64", S: []int{tmp, src}, A: []uint64{6}},
+				{Op: "addmany64", S: []int{src}, A: []uint64{h0, uint64(w.key(r)), 7, uint64(1 + r.Intn(40)), r.U64()}},
+				{Op: "addmany64", S: []int{tmp}, A: []uint64{h0 + uint64(r.Intn(5)), uint64(w.key(r)), 7, uint64(1 + r.Intn(30)), r.U64()}},
+				{Op: "maint64", S: []int{recv, tmp}, A: []uint64{1}},
+			}
+			for i := 0; i < r.Intn(4); i++ {
+				steps = append(steps, Step{Op: "addmany64", S: []int{recv}, A: []uint64{h0 + 100 + uint64(r.Intn(1000)), uint64(w.key(r)), 7, uint64(1 + r.Intn(8)), r.U64()}})
+			}
+			steps = append(steps, Step{Op: "rt64", S: []int{recv, src}, A: []uint64{uint64(r.Intn(4)), uint64(r.Intn(4)), r.U64(), 1}})
+			w.pending = append(w.pending, steps[1:]...)
+			w.probe("reuse64-scenario")
 			return steps[0], true
 		},
 		exec: func(w *World, st *Step) {}})
